@@ -156,6 +156,8 @@ pub struct Sess {
 pub struct WorldB {
     pub cfg: Cfg,
     pub rng_installed: bool,
+    /// the stream behind the library's OS randomness; monitors that need randomness of their own switch to a side stream and back
+    pub sut_rng: std::rc::Rc<std::cell::RefCell<Rng>>,
     pub server: NetcodeServer,
     pub incarnation: u32,
     pub secure: bool,
@@ -209,8 +211,9 @@ impl Drop for WorldB {
 impl WorldB {
     pub fn new(cfg: &Cfg) -> WorldB {
         // SUT-side randomness: second stream derived from the run (configuration) seed
-        let mut sut_rng = Rng::new(cfg.get("sutseed") ^ 0x5EED_0B0B);
-        renetcode::verif_rng::install(Some(Box::new(move |buf: &mut [u8]| sut_rng.fill(buf))));
+        let sut_rng = std::rc::Rc::new(std::cell::RefCell::new(Rng::new(cfg.get("sutseed") ^ 0x5EED_0B0B)));
+        let shared = sut_rng.clone();
+        renetcode::verif_rng::install(Some(Box::new(move |buf: &mut [u8]| shared.borrow_mut().fill(buf))));
         let secure = cfg.get("secure") == 1;
         let protocol_id = 0x1122_3344_5566_0000 + cfg.get("proto");
         let mut krng = Rng::new(cfg.get("sutseed") ^ 0xAB);
@@ -262,6 +265,7 @@ impl WorldB {
         let mut w = WorldB {
             cfg: cfg.clone(),
             rng_installed: true,
+            sut_rng,
             server,
             incarnation: 0,
             secure,
@@ -396,6 +400,28 @@ impl WorldB {
             let mut w = ChunkIo { data: Vec::new(), pos: 0, chunk };
             if token.write(&mut w).is_err() || w.data != bytes {
                 self.deferred.push(("C16".into(), "token-write-differs".into(), "short-writes".into(), format!("id {} chunk {}", id, chunk)));
+            }
+        }
+        // the same token with a lifetime at the edges of what generate accepts (a backend may hand out tokens that are valid for
+        // zero seconds, or practically for ever): whatever generate builds and write serializes, read gives back
+        {
+            let life = [0u64, 1, 0, 1 << 31, 1 << 40][tag as usize % 5];
+            // (keys and nonce of the probe come from a side stream, so that the run's own stream is the same with and without it)
+            let mut side = Rng::new(crate::prng::mix(&[tag, 0xED6E]));
+            renetcode::verif_rng::install(Some(Box::new(move |buf: &mut [u8]| side.fill(buf))));
+            let edge = ConnectToken::generate(now, protocol, life, id, timeout, addrs.clone(), Some(&user_data), &key);
+            let shared = self.sut_rng.clone();
+            renetcode::verif_rng::install(Some(Box::new(move |buf: &mut [u8]| shared.borrow_mut().fill(buf))));
+            if let Ok(edge) = edge {
+                self.token_roundtrips += 1;
+                let mut b = Vec::new();
+                if edge.write(&mut b).is_ok() {
+                    match ConnectToken::read(&mut std::io::Cursor::new(&b)) {
+                        Ok(t2) if t2 == edge => {}
+                        Ok(_) => self.deferred.push(("C16".into(), "token-write-read-differs".into(), "lifetime-edge".into(), format!("id {} lifetime {} s", id, life))),
+                        Err(e) => self.deferred.push(("C16".into(), "genuine-token-unreadable".into(), "lifetime-edge".into(), format!("lifetime {} s: {}", life, e))),
+                    }
+                }
             }
         }
         let listed: Vec<SocketAddr> = token.server_addresses.iter().flatten().copied().collect();
